@@ -13,7 +13,9 @@
 (* engine's honest ToBinary is the only witness.                           *)
 (***************************************************************************)
 EXTENDS Poseidon, FiniteSets, Json
-CONSTANTS Depth, Batch, Kind      \* Kind: "insertion" | "deletion"
+CONSTANTS Depth, Batch, Kind,     \* Kind: "insertion" | "deletion"
+          Sample,                \* FALSE: every tuple; TRUE: a structured sample (for fields too large to enumerate, e.g. the R1CS field F_47)
+          HintMutant             \* "none" | "nobool" (digits not asserted boolean) | "noam" (a*m = 0 dropped): must violate HintSoundComplete
 ASSUME FieldMode = "small" /\ 2^(Depth + 1) <= P
 
 F == 0..(P - 1)
@@ -31,6 +33,40 @@ DelRound(idx, item, root, proof) ==
        IN IF skip = 1 THEN <<TRUE, root>>
           ELSE IF Climb(item, low, proof) = root THEN <<TRUE, Climb(0, low, proof)>> ELSE <<FALSE, 0>>
 
+(***************************************************************************)
+(* The same gadgets at the level of their CONSTRAINTS, with the values a   *)
+(* prover computes for itself as explicit wires h (any field elements):    *)
+(*   digits d_1..d_n of the index (hint bits.NBits), the is-zero inverse   *)
+(*   (hint InvZero).  Sat(x, h) is what the R1CS enforces:                 *)
+(*   d_l (1 - d_l) = 0,  SUM d_l 2^(l-1) = index,  Select(b,x,y) = y + b (x - y), *)
+(*   IsZero(a): m = 1 - a inv,  a m = 0;  Or(m, skip) = m + skip - m skip = 1.    *)
+(* HintSound:    Sat(x, h) for SOME h  =>  Accepts(x)   (no choice of the  *)
+(*               auxiliary values makes the circuit accept a bad input)    *)
+(* HintComplete: Accepts(x)  =>  Sat(x, h) for some h.                     *)
+(* Batch = 1 (one round) is enough: rounds are chained through the running *)
+(* root only.                                                              *)
+(***************************************************************************)
+Sub(a, b) == (a + P - b) % P
+SelectF(b, x, y) == (y + b * Sub(x, y)) % P
+ClimbD(leaf, digits, proof) == FoldLeft(LAMBDA s, l : H(SelectF(digits[l], proof[l], s), SelectF(digits[l], s, proof[l])), leaf, [l \in 1..Depth |-> l])
+NDigits == IF Kind = "insertion" THEN Depth ELSE Depth + 1
+Hints == [d : [1..NDigits -> F], inv : F]
+Recompose(d) == FoldLeft(LAMBDA a, l : (a + d[l] * 2^(l-1)) % P, 0, [l \in 1..NDigits |-> l])
+Sat(x, h) ==
+  /\ (HintMutant = "nobool" \/ \A l \in 1..NDigits : (h.d[l] * Sub(1, h.d[l])) % P = 0)
+  /\ IF Kind = "insertion"
+       THEN /\ Recompose(h.d) = x.idx
+            /\ ClimbD(0, h.d, x.proofs[1]) = x.pre
+            /\ ClimbD(x.items[1], h.d, x.proofs[1]) = x.post
+       ELSE LET skip == h.d[Depth + 1]
+                a    == Sub(ClimbD(x.items[1], h.d, x.proofs[1]), x.pre)
+                m    == Sub(1, (a * h.inv) % P)
+            IN /\ Recompose(h.d) = x.idx[1]
+               /\ (HintMutant = "noam" \/ (a * m) % P = 0)
+               /\ (m * Sub(1, m)) % P = 0                                   \* api.Or asserts its operands boolean
+               /\ Sub((m + skip) % P, (m * skip) % P) = 1
+               /\ SelectF(skip, x.pre, ClimbD(0, h.d, x.proofs[1])) = x.post
+
 VARIABLES t, done
 vars == <<t, done>>
 Tuples == [idx : IF Kind = "insertion" THEN F ELSE [1..Batch -> F], pre : F, post : F, items : [1..Batch -> F], proofs : [1..Batch -> [1..Depth -> F]]]
@@ -40,8 +76,18 @@ Accepts(x) ==
                       ELSE DelRound(x.idx[i], x.items[i], acc[2], x.proofs[i])
       r == FoldLeft(step, <<TRUE, x.pre>>, [i \in 1..Batch |-> i])
   IN r[1] /\ r[2] = x.post
-Init == t \in Tuples /\ done = FALSE
+HintSoundComplete == (done /\ Batch = 1) => ((\E h \in Hints : Sat(t, h)) <=> Accepts(t))
+\* structured sample: indices around the range bounds, a few items and siblings, pre/post roots right or off by one
+SampleTuples ==
+  LET IdxS == {0, 1, 2^Depth - 1, 2^Depth, 2^Depth + 1, 2^(Depth + 1) - 1, 2^(Depth + 1), P - 1} \cap F
+      ItS  == {0, 1, P - 1}
+      PrS  == [1..Depth -> {0, 3}]
+  IN UNION {LET low == i % (2^Depth)  pre0 == Climb(0, low, pr)  post0 == Climb(it, low, pr)
+            IN {[idx |-> IF Kind = "insertion" THEN i ELSE <<i>>, pre |-> pre, post |-> post, items |-> <<it>>, proofs |-> <<pr>>] :
+                  pre \in {pre0, post0, (pre0 + 1) % P}, post \in {pre0, post0, (post0 + 1) % P}}
+            : i \in IdxS, it \in ItS, pr \in PrS}
+Init == t \in (IF Sample THEN SampleTuples ELSE Tuples) /\ done = FALSE
 Next == ~done /\ done' = TRUE /\ UNCHANGED t
 Spec == Init /\ [][Next]_vars
-Export == (done /\ Accepts(t)) => PrintT("TRACE " \o ToJson(t))
+Export == (done /\ (Sample \/ Accepts(t))) => PrintT("TRACE " \o ToJson(IF Sample THEN [t |-> t, accept |-> Accepts(t)] ELSE t))
 ====
